@@ -2,7 +2,7 @@
 # Determinism proof (not a registered check): for every profile, the run->trace-hash table must be identical across repeated
 # batches, worker counts and flavours (plain vs asan for the single-threaded profiles). Prints one line per profile.
 # usage: checks/determinism_proof.sh [runs] [flavour] [seed]
-cd /verif || exit 2
+cd "$(dirname "$0")/.." || exit 2
 RUNS="${1:-600}"; F="${2:-plain}"; SEED="${3:-1}"
 D=$(mktemp -d /var/tmp/bloc-detproof.XXXXXX); trap 'rm -rf "$D"' EXIT
 RC=0
